@@ -97,3 +97,27 @@ pub fn begin_path(kind: Kind, path: &Path, site: &'static str) -> std::io::Resul
 pub fn end_path(kind: Kind, path: &Path, site: &'static str) {
     let _ = emit(Event { kind, phase: Phase::End, fd: None, path: Some(path), offset: 0, len: 0, site });
 }
+
+/// Step markers of the commit / rollback pipelines (`lib.rs`, `store/mod.rs`, `store/sync.rs`): the steps that perform no
+/// I/O — guards, the poison / marker / root checks, the root update, `mark_committed`, `Rollback::truncate`, the `finish`
+/// inside `rollback`, `sync_seqn += 1`, poisoning — report their name to a second process-global handler, so that the
+/// harness sees the order of ALL steps of a call (merged with the I/O events above). The handler's result is ignored
+/// except at `session_finish` (inside `Nomt::rollback`), where an error stands for a failing `Session::finish`
+/// (reads are not covered by the I/O hook).
+pub type StepHandler = dyn Fn(&'static str) -> std::io::Result<()> + Send + Sync;
+
+static STEP_HANDLER: RwLock<Option<Arc<StepHandler>>> = RwLock::new(None);
+
+/// Install (or remove) the process-global step handler.
+pub fn set_step_handler(handler: Option<Arc<StepHandler>>) {
+    *STEP_HANDLER.write().unwrap() = handler;
+}
+
+/// Report a pipeline step.
+pub fn step(name: &'static str) -> std::io::Result<()> {
+    let handler = STEP_HANDLER.read().unwrap().clone();
+    match handler {
+        Some(h) => h(name),
+        None => Ok(()),
+    }
+}
